@@ -172,6 +172,16 @@ func init() {
 				return ldair
 			}
 			return ir
-		}, false, false)
+		}, true, false)
+		// every Step that executes an instruction (no request, or a refused one;
+		// halted or not) advances R exactly as that instruction does, and an
+		// accepted request leaves I and R alone
+		var cs []stepCase
+		for _, sc := range stepCases(false) {
+			if sc.name != "other" && sc.name != "IM0/empty" {
+				cs = append(cs, sc)
+			}
+		}
+		r.checkFn(ld, "z80.(*CPU).Step", cs, ir, false, false, "cpu.Step()")
 	}
 }
